@@ -55,6 +55,7 @@ func execBody(e *lp.Exec, cline string, lines []string, tr *track.Tracker, lg *n
 	e.P("ok")
 	tr.Reset()
 	tr.MoveOnGrow = field(f, "mv") == "1"
+	tr.Recycle = field(f, "rc") == "1"
 	rc := &track.RecConn{T: tr}
 	engine := nbhttp.NewEngine(nbhttp.Config{BodyAllocator: tr, MaxHTTPBodySize: maxBody, ReadLimit: rl})
 	if rl == 0 {
@@ -191,7 +192,11 @@ func genBody(g *lp.Gen) {
 	if g.Chance(1, 3) {
 		mv = 1
 	}
-	g.P("C body maxbody=%d rl=%d hp=%s mv=%d", maxBody, rl, hps, mv)
+	rc := 0
+	if g.Chance(1, 4) {
+		rc = 1
+	}
+	g.P("C body maxbody=%d rl=%d hp=%s mv=%d rc=%d", maxBody, rl, hps, mv, rc)
 	var stream []byte
 	nm := 1 + g.Intn(3)
 	for i := 0; i < nm; i++ {
